@@ -15,7 +15,7 @@ LEVEL_TEXT = ('Contract.tla tabulates the public interface (constructors, member
               'report or time-out is attributed to the vector being executed.')
 DESIGN_REF = 'DESIGN.md section 4, C13'
 LEVEL_NOTE = ('Trusted: TLC, Contract.tla, sanitizers for memory safety/UB on the executions enumerated (absence of UB is observed, not proved). '
-              'Geoid file faults are enumerated in C20; faults are single faults of small synthetic files; entries not in the table are not covered.')
+              'Faults are single faults of small synthetic files; entries not in the table are not covered.')
 TECHNIQUE = 'TLA+ contract table + TLC fault enumeration, execution under ASan/UBSan, TLC trace validation'
 
 
@@ -30,6 +30,8 @@ def to_rows(vals):
             rows.append(['nn', v[1], v[2], v[3]])
         elif v[0] == 'mfile':
             rows.append(['mfile', v[1], v[2], v[3], v[4]])
+        elif v[0] == 'gfile':
+            rows.append(['gfile', v[1], v[2]])
     return rows
 
 
@@ -103,7 +105,8 @@ RULE = ('fault enumeration by TLC from Contract.tla: every table entry (120: con
         'abstract alphabet, <= StrDepth + 1 over 12 symbols and <= StrDepth + 2 over 8 symbols for each of 16 parsers; for text and binary nearest-neighbour saves truncation, 5 byte-fault kinds and 7 field-value '
         'faults at every offset / field 0..400; for MagneticModel and GravityModel metadata files truncation and 3 byte faults at every offset, '
         'dropped / duplicated keyword lines and 11 value classes for every keyword, for their coefficient files truncation and 4 byte faults at '
-        'every offset and 8 header-word classes at every word; the unfaulted files as controls; plus seeded mutations of valid strings. '
+        'every offset and 8 header-word classes at every word; for geoid rasters truncation and 4 byte faults at every offset of header and data, '
+        'dropped / duplicated header lines, 11 value classes for every header field and for the dimensions; the unfaulted files as controls; plus seeded mutations of valid strings. '
         'distinct_nontrivial = distinct vectors executed.')
 TRUSTED = ['TLC', 'Contract.tla', 'AddressSanitizer + UndefinedBehaviorSanitizer']
 
